@@ -30,6 +30,29 @@ variable {n N : ℕ}
 noncomputable def holdSlope (order1 : Bool) (h : ℝ) (f0 f1 : Fin n → ℝ) : Fin n → ℝ :=
   if order1 then h⁻¹ • (f1 - f0) else 0
 
+/-- under the specification the real equation of motion has a solution for every real initial state
+and every force `f₀ + t fs` (the rebuilt modal solution, real part) -/
+theorem sol2R_exists (e : Eig ℂ n N) (cpx : Fin N → Bool) (isSmall : ℂ → Bool)
+    (M Mi B K : Matrix (Fin n) (Fin n) ℝ) (hMi : Mi * M = 1)
+    (sp : DelconjSpec e cpx isSmall (stateA (cMat Mi) (cMat B) (cMat K)))
+    (f0 fs d0 v0 : Fin n → ℝ) : ∃ d v, IsSol2R M B K f0 fs d0 v0 d v := by
+  have hMi' : M * Mi = 1 := mul_eq_one_comm.1 hMi
+  have hsm : ∀ k, (Sum.elim (fun k => isSmall (e.lam k)) (fun k : {k : Fin N // cpx k = true} =>
+      isSmall (e.lam k.1)) k = true → fullLam e cpx k = 0) ∧
+      (Sum.elim (fun k => isSmall (e.lam k)) (fun k : {k : Fin N // cpx k = true} =>
+      isSmall (e.lam k.1)) k = false → fullLam e cpx k ≠ 0) := by
+    intro k
+    cases k with
+    | inl k => exact sp.small k
+    | inr k =>
+      simp only [Sum.elim_inr, fullLam]
+      exact ⟨fun hs => by rw [(sp.small k.1).1 hs]; simp,
+        fun hs hc => (sp.small k.1).2 hs ((map_eq_zero _).1 hc)⟩
+  have hz := zModal_isStateSol _ (fullU e cpx) (fullV e cpx) (fullLam e cpx) _ sp.hUV sp.hAU hsm
+    (Sum.elim (cMat Mi *ᵥ cVec f0) 0) (Sum.elim (cMat Mi *ᵥ cVec fs) 0)
+    (Sum.elim (cVec v0) (cVec d0))
+  exact ⟨_, _, (hz.toSol2 (cMat_mul_eq_one hMi')).re⟩
+
 /-- one step of the real recovery.  `(d₁, v₁)` = second sample of
 `coupledRun order1 isSmall h e d₀ v₀ [M⁻¹ f₀, M⁻¹ f₁]`. -/
 theorem delconj_recovers (e : Eig ℂ n N) (cpx : Fin N → Bool) (isSmall : ℂ → Bool)
@@ -81,32 +104,13 @@ theorem delconj_recovers (e : Eig ℂ n N) (cpx : Fin N → Bool) (isSmall : ℂ
       have := congrFun key (Sum.inl j)
       simp only [Sum.elim_inl] at this
       rw [this, ← hv1]; rfl
-  -- existence: the rebuilt modal solution, its real part
-  have hex : ∃ d v, IsSol2 (cMat M) (cMat B) (cMat K) (cVec f0) (cVec (holdSlope order1 h f0 f1))
-      (cVec d0) (cVec v0) d v := by
-    have hsm : ∀ k, (Sum.elim (fun k => isSmall (e.lam k)) (fun k : {k : Fin N // cpx k = true} =>
-        isSmall (e.lam k.1)) k = true → fullLam e cpx k = 0) ∧
-        (Sum.elim (fun k => isSmall (e.lam k)) (fun k : {k : Fin N // cpx k = true} =>
-        isSmall (e.lam k.1)) k = false → fullLam e cpx k ≠ 0) := by
-      intro k
-      cases k with
-      | inl k => exact sp.small k
-      | inr k =>
-        simp only [Sum.elim_inr, fullLam]
-        exact ⟨fun hs => by rw [(sp.small k.1).1 hs]; simp,
-          fun hs hc => (sp.small k.1).2 hs ((map_eq_zero _).1 hc)⟩
-    have hz := zModal_isStateSol _ (fullU e cpx) (fullV e cpx) (fullLam e cpx) _ sp.hUV sp.hAU hsm
-      (Sum.elim (cMat Mi *ᵥ cVec f0) 0) (Sum.elim (cMat Mi *ᵥ cVec (holdSlope order1 h f0 f1)) 0)
-      (Sum.elim (cVec v0) (cVec d0))
-    exact ⟨_, _, hz.toSol2 (cMat_mul_eq_one hMi')⟩
-  obtain ⟨dc, vc, hc⟩ := hex
-  refine ⟨⟨_, _, hc.re⟩, fun d v hs => ?_⟩
+  refine ⟨sol2R_exists e cpx isSmall M Mi B K hMi sp f0 _ d0 v0, fun d v hs => ?_⟩
   obtain ⟨e1, e2⟩ := main _ _ hs.complexify
   exact ⟨cVec_injective e1, cVec_injective e2⟩
 
 /-- the whole loop of the real recovery: for every `j`, sample `j+1` of `coupledRun` is the state
 at `t = h` of THE solution of `M d'' + B d' + K d = f(t)` with the hold forcing of step `j`
-started from sample `j` (every real solution ends in sample `j+1`) -/
+started from sample `j` (a real solution exists, and every real solution ends in sample `j+1`) -/
 theorem coupled_run_exact_real (e : Eig ℂ n N) (cpx : Fin N → Bool) (isSmall : ℂ → Bool)
     (M Mi B K : Matrix (Fin n) (Fin n) ℝ) (hMi : Mi * M = 1)
     (sp : DelconjSpec e cpx isSmall (stateA (cMat Mi) (cMat B) (cMat K)))
@@ -115,7 +119,9 @@ theorem coupled_run_exact_real (e : Eig ℂ n N) (cpx : Fin N → Bool) (isSmall
     (h1 : (coupledRun order1 isSmall (h : ℂ) e d0 v0 (fs.map fun f => Mi *ᵥ f))[j]? = some (dj, vj))
     (h2 : (coupledRun order1 isSmall (h : ℂ) e d0 v0 (fs.map fun f => Mi *ᵥ f))[j + 1]? = some (dj1, vj1))
     (h3 : fs[j]? = some f0) (h4 : fs[j + 1]? = some f1) :
+    (∃ d v, IsSol2R M B K f0 (holdSlope order1 h f0 f1) dj vj d v) ∧
     ∀ d v, IsSol2R M B K f0 (holdSlope order1 h f0 f1) dj vj d v → d h = dj1 ∧ v h = vj1 := by
+  refine ⟨sol2R_exists e cpx isSmall M Mi B K hMi sp f0 _ dj vj, ?_⟩
   have hy0 : RealAt cpx (modalInit e (cVec d0) (cVec v0)) := by
     rw [modalInit_eq]; exact V_mulVec_realAt e cpx sp.real _ (zOf_real d0 v0)
   have hz0 : fullU e cpx *ᵥ extend cpx (modalInit e (cVec d0) (cVec v0)) = zOf d0 v0 := by
